@@ -254,6 +254,11 @@ def check_loops(ctx, chk):
                 continue
             kind, detail = classify_while(m, w, gcls)
             construct = f"ScenarioGenerator.{name}: while {cond} [{kind}]"
+            if kind == "unrecognised":
+                chk.undecided("C15.loop", construct, "the loop is not a counter / retry-until-"
+                              "fresh loop (`progress < bound`): like `while True` resampling, its "
+                              "termination is not a static fact", loc)
+                continue
             chk.ob("C15.loop", construct, kind in ("counter", "retry-until-fresh, capacity guard"),
                    detail, loc)
     chk.floor("C15.loop", n, 2, "while loops")
@@ -285,16 +290,19 @@ def arg_map(call, callee):
 
 
 def capacity_guard_before(fn_node, lineno, pool, bound):
-    """a dominating `if len(pool) < bound: ...; continue/return/raise` before line `lineno`"""
+    """a dominating `if len(pool) < bound:` whose true branch leaves (continue/return/raise) before
+    line `lineno`, or whose else branch contains that line"""
     for node in ast.walk(fn_node):
         if isinstance(node, ast.If) and node.lineno < lineno:
             c = node.test
             if isinstance(c, ast.Compare) and len(c.ops) == 1 and isinstance(c.ops[0], ast.Lt) \
                     and ast.unparse(c.left) == f"len({pool})" \
-                    and ast.unparse(c.comparators[0]) == bound \
-                    and node.body and isinstance(node.body[-1], (ast.Continue, ast.Return,
-                                                                 ast.Raise)):
-                return True
+                    and ast.unparse(c.comparators[0]) == bound and node.body:
+                if isinstance(node.body[-1], (ast.Continue, ast.Return, ast.Raise)):
+                    return True
+                if node.orelse and node.orelse[0].lineno <= lineno <= max(
+                        getattr(x, "end_lineno", x.lineno) for x in node.orelse):
+                    return True
     return False
 
 
@@ -433,19 +441,39 @@ def check_probs(ctx, chk):
     lens = any(f_show(F) == f"len({P})=={fi.params[1]}" for F, _ in guards)
     chk.ob("C15.probs", "_get_action_probs: a list specification has one entry per action", lens, "",
            fi.module.path)
-    # 'mixed' levels: literal lists
+    # 'mixed' levels: the population np.random.choice draws from (the call that carries p=...) is
+    # made of literals in (0, 1], on every path
     bad = []
     nlev = 0
-    for n in ast.walk(fi.node):
-        if isinstance(n, ast.Assign) and isinstance(n.targets[0], ast.Name) \
-                and n.targets[0].id == "levels" and isinstance(n.value, ast.List):
-            for e in n.value.elts:
-                nlev += 1
-                if not (isinstance(e, ast.Constant) and isinstance(e.value, (int, float))
-                        and 0 < e.value <= 1):
-                    bad.append(ast.unparse(e))
-    chk.ob("C15.probs", "_get_action_probs: 'mixed' levels are literals in (0, 1]",
-           nlev >= 2 and not bad, f"{nlev} level literal(s); outside (0,1]: {bad}", fi.module.path)
+
+    def leaves(t):
+        if t[0] == "phi":
+            return leaves(t[2]) + leaves(t[3])
+        if t[0] == "cases":
+            return [x for _, v in t[1] for x in leaves(v)]
+        return [t]
+    und = None
+    for ev in s.events:
+        if ev.kind == "call" and ev.data["fname"] == "numpy.random.choice" \
+                and "p" in dict(ev.data.get("kwargs") or ()) and ev.data["args"]:
+            for lf_ in leaves(ev.data["args"][0]):
+                els = ip._literal_elements(lf_)
+                if els is None:
+                    und = cn.show(lf_)
+                    continue
+                for e in els:
+                    nlev += 1
+                    if not (e[0] == "const" and isinstance(e[1], (int, float))
+                            and not isinstance(e[1], bool) and 0 < e[1] <= 1):
+                        bad.append(cn.show(e))
+    if und is not None and not bad:
+        chk.undecided("C15.probs", "_get_action_probs: 'mixed' levels are literals in (0, 1]",
+                      f"population of the weighted draw is not a literal list: {und[:120]}",
+                      fi.module.path)
+    else:
+        chk.ob("C15.probs", "_get_action_probs: 'mixed' levels are literals in (0, 1]",
+               nlev >= 2 and not bad, f"{nlev} level literal(s); outside (0,1]: {bad}",
+               fi.module.path)
     # None branch: the raw draw random_sample(n) lies in [0, 1) (0.0 has probability 2^-53: noted);
     # any quantisation of it makes exactly 0.0 (or 1.0 -> fine) a likely value
     none_vals = [t for pc, t in s.returns
@@ -602,13 +630,20 @@ def counter_pairing(m):
 # ------------------------------------------------------------------------------ (f)
 def check_hosts(ctx, chk):
     fi, ip, s, cn = method_run(ctx, "_convert_to_os_map")
-    st = [ev for ev in s.events if ev.kind == "store" and ev.data["target"] == "sub"]
-    ok = len(st) == 1 and cn.show(st[0].data["idx"]) == "each(G.os)" and \
-        cn.show(st[0].data["value"]) == f"each(G.os)=={fi.params[1]}" and \
-        not [c for c in st[0].pc if c[0] not in ("inloop", "fact")]
-    chk.ob("C15.hosts", "_convert_to_os_map: os_map[name] = (name == os) for every declared OS "
-           "(one-hot by construction)", ok,
-           str([(cn.show(e.data["idx"]), cn.show(e.data["value"])) for e in st]), fi.module.path)
+    from .shapes import as_mapping
+    mp = as_mapping(ip, cn, s.returns[0][1]) if len(s.returns) == 1 else None
+    if mp is None:
+        chk.undecided("C15.hosts", "_convert_to_os_map: os_map[name] = (name == os) for every "
+                      "declared OS (one-hot by construction)", "the returned value is not a "
+                      "mapping built uniformly over one iterable: "
+                      + str([cn.show(t)[:120] for _, t in s.returns]), fi.module.path)
+    else:
+        ks, vs, loops, cond = mp
+        x, y = sorted(["each(G.os)", fi.params[1]])
+        ok = ks == "each(G.os)" and vs == f"{x}=={y}" and loops == ["G.os"] \
+            and cond == ("true",)
+        chk.ob("C15.hosts", "_convert_to_os_map: os_map[name] = (name == os) for every declared OS "
+               "(one-hot by construction)", ok, str(mp), fi.module.path)
     fi, ip, s, cn = method_run(ctx, "_dirichlet_process")
     st = [ev for ev in s.events if ev.kind == "store" and ev.data["target"] == "sub"
           and ev.data["value"] == C(True)]
@@ -624,9 +659,11 @@ def check_hosts(ctx, chk):
     check_permutations(ctx, chk)
     fi, ip, s, cn = method_run(ctx, "_get_host_value")
     txt = [cn.show(t) for _, t in s.returns]
+    A_ = fi.params[1]
     chk.ob("C15.hosts", "_get_host_value = sensitive_hosts.get(address, base_host_value)",
-           txt == [f"G.sensitive_hosts.get({fi.params[1]}, G.base_host_value)"], str(txt),
-           fi.module.path)
+           txt in ([f"G.sensitive_hosts.get({A_}, G.base_host_value)"],
+                   [f"({A_} in G.sensitive_hosts ? G.sensitive_hosts[{A_}] : G.base_host_value)"]),
+           str(txt), fi.module.path)
 
 
 def check_permutations(ctx, chk):
@@ -697,7 +734,7 @@ def check_firewall(ctx, chk):
     stores = [ev for ev in s.events if ev.kind == "store" and ev.data["target"] == "sub"
               and cn.show(ev.data["idx"]) == f"({SRC}, {DST})"]
     chk.ob("C15.firewall", "_generate_firewall stores rules only under key (src, dest) of the "
-           "double loop over all subnets", len(stores) >= 3, f"{len(stores)} store site(s)",
+           "double loop over all subnets", len(stores) >= 1, f"{len(stores)} store site(s)",
            fi.module.path)
     x, y = sorted([SRC, DST])
     connected = f_and([f_not(A(f"{x}=={y}")), A(f"G.topology[{SRC}][{DST}]")])
